@@ -32,9 +32,10 @@ MODULE = "refsig/ZadoffChu.tla"
 JVM_ENV = {"JAVA_TOOL_OPTIONS": "-XX:ParallelGCThreads=1 -XX:CICompilerCount=2"}   # small runs: keep the JVM lean
 DEVS = ["PrimeTableEndsAt1009", "ZeroPadExtension", "NSquaredPhase", "ShiftDenominator8",
         "TapWindowOffByOne", "LsGramNotConjugated",
-        "UserCreationAliasesRoot", "WindowCachedOnEstimator"]          # the last two: RefSession.tla
+        "UserCreationAliasesRoot", "WindowCachedOnEstimator", "ResultBufferReused"]     # the last three: RefSession.tla
 INVARIANTS = ["PrimeIsLargest", "ConstantAmplitude", "ZeroAutocorrelation", "FlatSpectrum", "CyclicExtension",
-              "RootIsExtendedZc", "UeIsShiftedRoot", "ShiftOrthogonality", "LsExact", "ScenarioOk", "EstimateExact"]
+              "RootIsExtendedZc", "UeIsShiftedRoot", "ShiftOrthogonality", "LsExact", "LsScaleCovariant", "ScenarioOk",
+              "EstimateExact", "EstimateHomogeneous"]
 ACTIONS = ["PrimeCase", "ZcCase", "ExtCase", "RootCase", "UeCase", "ShiftCase", "LsCase", "EstCase"]
 TOL = 1e-9
 TOL_REL = 1e-8
@@ -114,7 +115,7 @@ DEV_RUNS = {
     "NSquaredPhase": (["zc"], dict(ZcNs={5, 7}), "ZeroAutocorrelation"),
     "ShiftDenominator8": (["shift"], dict(ShiftLs={24}, ShiftDs={12}), "ShiftOrthogonality"),
     "TapWindowOffByOne": (["est"], dict(EstFams={"srs", "dmrs"}, EstLs={24, 48}, EstNrx={1, 2}, EstVars={1, 2}), "EstimateExact"),
-    "LsGramNotConjugated": (["ls"], dict(NLs=40), "LsExact"),
+    "LsGramNotConjugated": (["ls"], dict(NLs=40), {"LsExact", "LsScaleCovariant"}),
 }
 
 
@@ -154,6 +155,41 @@ def maxdiff(a, b):
     if a.shape != b.shape:
         return float("inf")
     return float(np.max(np.abs(a - b))) if a.size else 0.0
+
+
+# ------------------------------------------------------------ call discipline (notes/CALL_DISCIPLINE.md)
+class Discipline(Exception):
+    """a public call broke a frame condition (ArgumentsUnchanged / result aliases an argument)"""
+
+
+def call(fn, *args, **kw):
+    """Every ndarray argument is handed over READ-ONLY, must be bit-identical afterwards, and the result must not
+    share memory with it (a caller who keeps writing into his own buffers must not change a result)."""
+    passed, saved = [], []
+    for a in args:
+        if isinstance(a, np.ndarray):
+            b = a.copy(order="K")
+            b.setflags(write=False)
+            passed.append(b)
+            saved.append(a.copy(order="K"))
+        else:
+            passed.append(a)
+            saved.append(None)
+    res = fn(*passed, **kw)
+    name = getattr(fn, "__qualname__", getattr(fn, "__name__", str(fn)))
+    for i, (b, a0) in enumerate(zip(passed, saved)):
+        if a0 is None:
+            continue
+        if b.shape != a0.shape or not np.array_equal(b.view(np.uint8) if b.flags.c_contiguous else np.ascontiguousarray(b).view(np.uint8),
+                                                       a0.view(np.uint8) if a0.flags.c_contiguous else np.ascontiguousarray(a0).view(np.uint8)):
+            raise Discipline(f"{name} changed its argument {i} (ArgumentsUnchanged)")
+        if isinstance(res, np.ndarray) and np.shares_memory(res, b):
+            raise Discipline(f"the result of {name} shares memory with argument {i}")
+    return res
+
+
+def scale_of(pq):
+    return float(pq[0]) / float(pq[1])
 
 
 # ------------------------------------------------------------ one emitted case on the real code
@@ -204,6 +240,10 @@ def do_prime(c):
 def do_zc(c):
     from pyphysim.reference_signals.zadoffchu import calcBaseZC
     got = calcBaseZC(c["n"], c["u"])
+    for ty in (np.int64, np.int32, np.uint16):                     # integer-valued arguments of every integer type
+        alt = calcBaseZC(ty(c["n"]), ty(c["u"]))
+        if maxdiff(alt, got) > 0:
+            return "viol", f"calcBaseZC({c['n']}, {c['u']}) depends on the integer type of its arguments ({ty.__name__})"
     d = maxdiff(got, unit(c["e"], c["n"]))
     return ("ok", "") if d <= phase_tol(c["u"], c["n"], c["n"]) else ("viol", f"calcBaseZC({c['n']}, {c['u']}) differs from exp(-j pi u n(n+1)/N) by {d:.3g}")
 
@@ -213,8 +253,8 @@ def do_ext(c):
     n, u, size = c["n"], c["u"], c["size"]
     want = unit(c["e"], n)
     # (a) the index map alone, fed with the exact base sequence; (b) the real chain
-    got_a = get_extended_ZF(unit(c["e"][:n], n), size)
-    got_b = get_extended_ZF(calcBaseZC(n, u), size)
+    got_a = call(get_extended_ZF, unit(c["e"][:n], n), size)
+    got_b = call(get_extended_ZF, calcBaseZC(n, u), size)
     for tag, got in (("exact base", got_a), ("calcBaseZC", got_b)):
         d = maxdiff(got, want)
         if d > phase_tol(u, size, n):
@@ -295,15 +335,26 @@ def do_ls(c):
     S, H, Y = gmat(c["s"]), gmat(c["h"]), gmat(c["y"])
     S2, H2, Y2 = gmat(c["s2"]), gmat(c["h2"]), gmat(c["y2"])
     form = c["form"]
-    if form == "2d":
-        got, want = compute_ls_estimation(Y, S), H
-    elif form == "3d-shared":
-        got, want = compute_ls_estimation(np.stack([Y, Y2]), S), np.stack([H, H2])
-    else:
-        got, want = compute_ls_estimation(np.stack([Y, Y2]), np.stack([S, S2])), np.stack([H, H2])
-    d = maxdiff(got, want)
-    if d > TOL * max(1.0, float(np.max(np.abs(want)))):
-        return "viol", f"compute_ls_estimation ({form}, pilots {S.shape}) misses the channel by {d:.3g}"
+    fortran = c["id"] % 2 == 1                       # memory layout of the arguments must not matter
+    lay = np.asfortranarray if fortran else np.ascontiguousarray
+    # scale covariance (LsScaleCovariant): pilots scaled by f, observation rebuilt from the scaled pilots,
+    # the expected channel is the same exact H
+    for f in [1.0] + [scale_of(q) for q in c["scales"]]:
+        if f == 1.0:
+            Sa, Sb, Ya, Yb = S, S2, Y, Y2            # TLC's exact observation
+        else:
+            Sa, Sb = S * f, S2 * f
+            Ya, Yb = H @ Sa, H2 @ Sb
+        if form == "2d":
+            got, want = call(compute_ls_estimation, lay(Ya), lay(Sa)), H
+        elif form == "3d-shared":
+            got, want = call(compute_ls_estimation, lay(np.stack([Ya, Yb])), lay(Sa)), np.stack([H, H2])
+        else:
+            got, want = call(compute_ls_estimation, lay(np.stack([Ya, Yb])), lay(np.stack([Sa, Sb]))), np.stack([H, H2])
+        d = maxdiff(got, want)
+        if d > TOL * max(1.0, float(np.max(np.abs(want)))):
+            return "viol", (f"compute_ls_estimation ({form}, pilots {S.shape} scaled by {f:g}) misses the channel by {d:.3g} "
+                            f"(scale covariance: H_hat(H cS, cS) = H)")
     return "ok", ""
 
 
@@ -316,7 +367,7 @@ def freq_response(taps, nrx, nsc):
     return H
 
 
-def estimate(sc, est_taps, root, tgt=None, estimator=None):
+def estimate(sc, est_taps, root, tgt=None, estimator=None, factor=1.0):
     """One estimate call for scenario `sc` (rel).  The noise-free observation is built from first principles
     (DFT of every user's taps, comb, sequences of real user objects made from the RootSequence object `root`);
     `tgt` / `estimator`: existing (shared) objects to use instead of fresh ones.
@@ -343,19 +394,20 @@ def estimate(sc, est_taps, root, tgt=None, estimator=None):
         Y += Hc[:, np.newaxis, :] * r[np.newaxis, :, :] if occ else Hc * r[np.newaxis, :]
     if nrx == 1:
         Y = Y[0]
+    Y = Y * factor                                   # EstimateHomogeneous: the estimate scales with the observation
     if occ:
         est = estimator if estimator is not None else CazacBasedWithOCCChannelEstimator(tgt)
         if sc["extradim"]:
-            got = est.estimate_channel_freq_domain(Y, K, extra_dimension=True)
+            got = call(est.estimate_channel_freq_domain, Y, K, extra_dimension=True)
         else:
             flat = np.ascontiguousarray(Y.reshape(Y.shape[:-2] + (2 * L,)))
-            got = est.estimate_channel_freq_domain(flat, K, extra_dimension=False)
+            got = call(est.estimate_channel_freq_domain, flat, K, extra_dimension=False)
     else:
         if estimator is not None:
             est = estimator
         else:
             est = CazacBasedChannelEstimator(tgt.seq_array() if sc["asarray"] else tgt, size_multiplier=mult)
-        got = est.estimate_channel_freq_domain(Y, K)
+        got = call(est.estimate_channel_freq_domain, Y, K)
     # expected: DFT of the impulse response TLC computed for the kept window (= the target's taps)
     want = np.zeros((nrx, nsc), dtype=complex)
     k = np.arange(nsc)
@@ -365,18 +417,20 @@ def estimate(sc, est_taps, root, tgt=None, estimator=None):
     truth = freq_response(taps_of(sc), nrx, nsc)
     if nrx == 1:
         want, truth = want[0], truth[0]
-    return got, want, truth
+    return got, want * factor, truth * factor
 
 
 def do_est(c):
     sc = c["sc"]
     root = _rs()(root_index=sc["u"], size=sc["size"])
-    got, want, truth = estimate(sc, c["est"], root)
-    scale = max(1.0, float(np.max(np.abs(truth))))
-    d = max(maxdiff(got, want), maxdiff(got, truth))
-    if d > TOL_REL * scale:
-        return "viol", (f"{sc['fam']} estimator (size {sc['size']}, comb x{sc['mult']}, {sc['nrx']} rx, keep {sc['keep']}, shift {sc['ct']}, "
-                        f"{len(sc['others'])} other users, normalize {sc['normalize']}) misses the frequency response by {d:.3g}")
+    for f in [1.0] + [scale_of(q) for q in c["scales"]]:
+        got, want, truth = estimate(sc, c["est"], root, factor=f)
+        scale = f * max(1.0, float(np.max(np.abs(truth))) / f)
+        d = max(maxdiff(got, want), maxdiff(got, truth))
+        if d > TOL_REL * scale:
+            return "viol", (f"{sc['fam']} estimator (size {sc['size']}, comb x{sc['mult']}, {sc['nrx']} rx, keep {sc['keep']}, shift {sc['ct']}, "
+                            f"{len(sc['others'])} other users, normalize {sc['normalize']}, observation scaled by {f:g}) misses the "
+                            f"frequency response by {d:.3g} (relative {d / scale:.3g})")
     return "ok", ""
 
 
